@@ -14,6 +14,8 @@ A scenario is JSON:
 The trace is a list of integer lists [time, kind, ...]; nothing address- or repr-dependent enters it.
 """
 import operator
+import warnings
+warnings.filterwarnings("ignore", category=RuntimeWarning)
 import signal
 
 INF = float('inf')
@@ -70,7 +72,14 @@ class Env:
         self.task_names = {}
         self.serial = 0
         self.probes = probes            # optional list for monitors (not compared with the model)
-        self.actor = []                 # stack of static actor labels (for probes only)
+        self.pid = 0
+        self.waiting = {}               # condition waits in progress: pid -> (W, actor)
+        self.scope_objs = {}
+        self.active_untils = {}
+        self.coro_names = {}
+        self.keep = []
+        self.loop_started = False
+        self.scope_tasks = {}
 
     # ---- events
     def now(self):
@@ -116,6 +125,8 @@ class Env:
             return [10, cls, e.serial]
         if isinstance(e, KeyboardInterrupt) and hasattr(e, 'serial'):
             return [10, 4, e.serial]
+        if isinstance(e, AssertionError) and hasattr(e, 'serial'):
+            return [10, 3, e.serial]
         if isinstance(e, ValueError):
             return [19]
         if isinstance(e, AssertionError):
@@ -182,7 +193,7 @@ class Env:
         usim = self.usim
         k = pat[0]
         if k == 'user':
-            return isinstance(e, UCLS[pat[1]]) and (pat[1] != 4 or hasattr(e, 'serial'))
+            return isinstance(e, UCLS[pat[1]]) and (pat[1] < 3 or hasattr(e, 'serial'))
         if k == 'exception':
             return isinstance(e, Exception)
         if k == 'concurrent':
@@ -193,37 +204,130 @@ class Env:
             return isinstance(e, usim.StreamClosed)
         return False
 
+    # ---- independent evaluation of a notification expression on the current raw values
+    def eval_w(self, w):
+        """truth of a *condition* expression now (None for delays, which are not conditions)"""
+        k = w[0]
+        now = self.now()
+        if k == 'delay':
+            return None
+        if k == 'after':
+            return now >= tval(w[1])
+        if k == 'before':
+            return now < tval(w[1])
+        if k == 'moment':
+            return now == tval(w[1])
+        if k == 'instant':
+            return True
+        if k == 'eternity':
+            return False
+        if k == 'flag':
+            return bool(self.flags[w[1]]._value)
+        if k == 'cmp':
+            return bool(OPS[w[2]](self.tracked[w[1]].value, w[3]))
+        if k == 'cmp2':
+            return bool(OPS[w[2]](self.tracked[w[1]].value, self.tracked[w[3]].value))
+        if k == 'done':
+            t = self.tasks.get(w[1])
+            return bool(t._done._value) if t is not None else False
+        if k == 'and':
+            return self.eval_w(w[1]) and self.eval_w(w[2])
+        if k == 'or':
+            return self.eval_w(w[1]) or self.eval_w(w[2])
+        if k == 'not':
+            return not self.eval_w(w[1])
+        raise ValueError(w)
+
     # ---- statements
-    async def block(self, ss):
+    async def block(self, ss, actor=None):
         for s in ss:
-            await self.stmt(s)
+            await self.stmt(s, actor)
 
     async def payload(self, tname, body):
-        await self.block(body)
+        actor = ('t', tname)
+        self.probe('task_start', tname, self.now())
+        try:
+            await self.block(body, actor)
+        except BaseException as e:
+            self.probe('task_end', tname, self.now(), e)
+            raise
+        self.probe('task_end', tname, self.now(), None)
         return 1000 + tname
 
-    async def stmt(self, s):
+    async def scope_stmt(self, s, actor):
+        usim = self.usim
+        if s[0] == 'scope':
+            name, w, body, mgr = s[1], None, s[2], usim.Scope()
+        else:
+            name, w, body = s[1], s[2], s[3]
+            n = self.mk(w)
+            self.probe('until_cond', name, w, self.eval_w(w), n)
+            mgr = usim.until(n)
+        t0 = self.now()
+        self.probe('scope_enter', name, s[0], w, t0, actor)
+        self.scope_tasks[name] = []
+        if w is not None and self.probes is not None:
+            from usim._primitives.condition import Connective
+            self.probe('until_kind', name, isinstance(n, Connective), self.eval_w(w))
+            if self.eval_w(w):
+                self.probe('until_true', name, t0)
+            elif self.eval_w(w) is not None:
+                self.active_untils[name] = (w, t0)
+        state = {'body': 'running'}
+        try:
+            async with mgr as scope:
+                self.scopes[name] = scope
+                self.scope_objs[name] = scope
+                try:
+                    await self.block(body, actor)
+                    state['body'] = 'done'
+                except BaseException as e:
+                    state['body'] = e
+                    raise
+        except BaseException as e:
+            self.active_untils.pop(name, None)
+            self.probe('scope_exit', name, self.now(), e, state['body'], self.undone(name))
+            raise
+        self.active_untils.pop(name, None)
+        self.probe('scope_exit', name, self.now(), None, state['body'], self.undone(name))
+
+    def undone(self, name):
+        return [t for t in self.scope_tasks.get(name, []) if not bool(self.tasks[t].done)]
+
+    async def stmt(self, s, actor=None):
         usim = self.usim
         op = s[0]
         if op == 'log':
             self.emit([1, s[1]])
+            self.probe('log', s[1], self.now(), actor)
         elif op == 'await':
-            await self.mk(s[1])
+            w = s[1]
+            self.pid += 1
+            pid = self.pid
+            obj = self.mk(w)
+            if self.probes is not None:
+                v = self.eval_w(w)
+                if v is not None:
+                    self.probe('cond_eval', w, v, bool(obj))
+                self.probe('await', pid, w, self.now(), actor)
+                self.waiting[pid] = (w, actor)
+            try:
+                await obj
+            finally:
+                self.waiting.pop(pid, None)
+            if self.probes is not None:
+                self.probe('awaited', pid, w, self.now(), actor, self.eval_w(w))
         elif op == 'set_flag':
+            self.probe('set_flag', s[1], bool(s[2]), self.now(), actor)
             await self.flags[s[1]].set(bool(s[2]))
         elif op == 'set_tracked':
+            self.probe('set_tracked', s[1], s[2], self.now(), actor)
             await self.tracked[s[1]].set(s[2])
         elif op == 'add_tracked':
+            self.probe('set_tracked', s[1], self.tracked[s[1]].value + s[2], self.now(), actor)
             await (self.tracked[s[1]] + s[2])
-        elif op == 'scope':
-            async with usim.Scope() as scope:
-                self.scopes[s[1]] = scope
-                await self.block(s[2])
-        elif op == 'until':
-            n = self.mk(s[2])
-            async with usim.until(n) as scope:
-                self.scopes[s[1]] = scope
-                await self.block(s[3])
+        elif op in ('scope', 'until'):
+            await self.scope_stmt(s, actor)
         elif op == 'do':
             _, scname, tname, start, volatile, body = s
             scope = self.scopes.get(scname)
@@ -235,34 +339,47 @@ class Env:
                     kw['after'] = tval(start[1])
                 elif start[0] == 'at':
                     kw['at'] = tval(start[1])
-                task = scope.do(self.payload(tname, body), volatile=bool(volatile), **kw)
+                try:
+                    task = scope.do(self.payload(tname, body), volatile=bool(volatile), **kw)
+                except BaseException as e:
+                    self.probe('do_refused', scname, tname, self.now(), e, actor)
+                    raise
+                self.probe('do', scname, tname, start, bool(volatile), self.now(), actor)
                 self.tasks[tname] = task
                 self.task_names[id(task)] = tname
+                self.scope_tasks.setdefault(scname, []).append(tname)
+                self.coro_names[id(task.__runner__)] = ('t', tname)
         elif op == 'cancel':
             t = self.tasks.get(s[1])
             if t is None:
                 self.emit([7, s[1]])
             else:
+                self.probe('cancel', s[1], s[2], self.now(), actor, int(t.status.value))
                 t.cancel(s[2])
         elif op == 'await_task':
             t = self.tasks.get(s[1])
             if t is None:
                 self.emit([7, s[1]])
             else:
-                v = await t
+                try:
+                    v = await t
+                except BaseException as e:
+                    self.probe('task_result', s[1], self.now(), actor, e)
+                    raise
+                self.probe('task_result', s[1], self.now(), actor, v)
                 self.emit([2, s[1], v if isinstance(v, int) else -1])
         elif op == 'raise':
             cls = s[1]
             self.serial += 1
             e = UCLS[cls]()
-            if cls != 3:
-                e.serial = self.serial - 1
+            e.serial = self.serial - 1
+            self.probe('raise', cls, e.serial, self.now(), actor, e)
             raise e
         elif op == 'try':
             _, body, handlers, fin = s
             try:
                 try:
-                    await self.block(body)
+                    await self.block(body, actor)
                 except BaseException as e:
                     h = None
                     for pat, hb in handlers:
@@ -272,20 +389,39 @@ class Env:
                     if h is None:
                         raise
                     self.emit([3] + self.code(e))
-                    await self.block(h)
+                    self.probe('caught', e, self.now(), actor)
+                    await self.block(h, actor)
             finally:
-                await self.block(fin)
+                await self.block(fin, actor)
         elif op == 'with_lock':
-            async with self.locks[s[1]]:
-                await self.block(s[2])
+            l = s[1]
+            self.probe('lock_req', l, actor, self.now())
+            lock = self.locks[l]
+            async with lock:
+                self.probe('lock_in', l, actor, self.now())
+                try:
+                    await self.block(s[2], actor)
+                finally:
+                    self.probe('lock_out', l, actor, self.now())
         elif op == 'lock_avail':
             self.emit([5, s[1], 1 if self.locks[s[1]].available else 0])
         elif op == 'put':
-            await self.queues[s[1]].put(s[2])
+            try:
+                self.probe('put', s[1], s[2], self.now(), actor, bool(self.queues[s[1]].closed))
+                await self.queues[s[1]].put(s[2])
+            finally:
+                pass
         elif op == 'get':
-            v = await self.queues[s[1]]
+            self.probe('get_start', s[1], actor, self.now())
+            try:
+                v = await self.queues[s[1]]
+            except BaseException as e:
+                self.probe('get_exc', s[1], actor, self.now(), e)
+                raise
+            self.probe('got', s[1], v, actor, self.now())
             self.emit([4, s[1], v])
         elif op == 'close_q':
+            self.probe('close_q', s[1], self.now(), actor)
             await self.queues[s[1]].close()
         elif op == 'status':
             t = self.tasks.get(s[1])
@@ -301,33 +437,79 @@ def _alarm(signum, frame):
     raise WallClock()
 
 
-def run_scenario(sc, budget=4000, wall=10, probes=None, on_activation=None):
-    """run one scenario on the real library; returns (trace, info)"""
+def run_scenario(sc, budget=4000, wall=10, probes=None):
+    """run one scenario on the real library; returns (trace, info).
+    With `probes` (a list) the run is instrumented from outside for the monitors: activation boundaries,
+    due times of scheduled activations, end of every time step.  Probes never influence the run."""
     import usim
     from usim._core import loop as loopmod
     env = Env(sc, probes)
     info = {'activations': 0, 'last_time': tval(sc['start'])}
-    orig = loopmod.Loop._run_coroutine
+    orig_run = loopmod.Loop._run_coroutine
+    orig_sched = loopmod.Loop.schedule
+    wq = loopmod.WaitQueue
+    orig_pop = wq.pop
+    dues = {}
+
+    def step_checks(loop):
+        # evaluated at activation boundaries: which until-conditions hold, per active scope
+        for name, (w, _) in list(env.active_untils.items()):
+            if env.eval_w(w):
+                env.probe('until_true', name, loop.time)
+                del env.active_untils[name]
 
     def wrapped(self, target, signal_=None):
         info['activations'] += 1
         info['last_time'] = self.time
         if info['activations'] > budget:
             raise Budget()
-        if on_activation is not None:
-            on_activation(self, target, signal_, env)
-        return orig(self, target, signal_)
+        if probes is not None:
+            q = dues.get((id(target), id(signal_)))
+            due = q.pop(0) if q else None
+            env.probe('act', self.time, self.turn, due, env.coro_names.get(id(target)))
+            step_checks(self)
+        try:
+            return orig_run(self, target, signal_)
+        finally:
+            if probes is not None:
+                step_checks(self)
+
+    def sched(self, target, signal=None, *, delay=None, at=None):
+        if delay is None and at is None:
+            due = self.time
+        elif delay is not None:
+            due = self.time + delay
+        else:
+            due = at
+        dues.setdefault((id(target), id(signal)), []).append(due)
+        env.keep.append((target, signal))      # keep ids unique for the duration of the run
+        return orig_sched(self, target, signal, delay=delay, at=at)
+
+    def pop(self):
+        # the loop asks for the next time step: the current one is over
+        if env.loop_started:
+            env.probe('step_end', env.now(), [(pid, w, a) for pid, (w, a) in env.waiting.items() if env.eval_w(w)])
+        env.loop_started = True
+        return orig_pop(self)
 
     loopmod.Loop._run_coroutine = wrapped
+    if probes is not None:
+        loopmod.Loop.schedule = sched
+        wq.pop = pop
     old = signal.signal(signal.SIGALRM, _alarm)
     signal.alarm(wall)
-    roots = [env.block(ss) for ss in sc['roots']]
+    roots = [env.block(ss, ('r', i)) for i, ss in enumerate(sc['roots'])]
+    for i, r in enumerate(roots):
+        env.coro_names[id(r)] = ('r', i)
+        dues.setdefault((id(r), id(None)), []).append(tval(sc['start']))
+    info['env'] = env
     final = [90]
     err = None
     try:
         kw = {'start': tval(sc['start'])}
         if sc.get('till') is not None:
             kw['till'] = tval(sc['till'])
+            dues.clear()
         usim.run(*roots, **kw)
     except BaseException as e:   # noqa
         err = e
@@ -335,11 +517,16 @@ def run_scenario(sc, budget=4000, wall=10, probes=None, on_activation=None):
     finally:
         signal.alarm(0)
         signal.signal(signal.SIGALRM, old)
-        loopmod.Loop._run_coroutine = orig
+        loopmod.Loop._run_coroutine = orig_run
+        loopmod.Loop.schedule = orig_sched
+        wq.pop = orig_pop
+    if probes is not None:
+        probes.append(('run_end', tcode(info['last_time']), err))
     env.finished = True
     trace = env.trace + [[tcode(info['last_time'])] + final]
     info['final'] = final
     info['error'] = repr(err) if err is not None else None
+    info['exc'] = err
     for r in roots:           # never-started roots (run raised early): avoid "never awaited" warnings
         try:
             r.close()
